@@ -51,7 +51,9 @@ CONFIG = {
         "'No character data in data source' and 'Data source (at offset ..) is of type ..' raised by "
         "_parse_and_create_from_stream are the documented errors for a source without (matching) data",
         "a declaration of NTAX/NCHAR counts only when it is the single one in the text, stands in a DIMENSIONS "
-        "statement outside comments/quotes before the single MATRIX keyword, and exactly one matrix is returned",
+        "statement outside comments/quotes before the single MATRIX keyword, and exactly one matrix is returned; "
+        "NTAX counts only when declared in the block of that MATRIX (a TAXA block's NTAX is ambiguous in files with "
+        "several TAXA blocks)",
         "the process recursion limit is the 3000 set by vp_check.py; Newick nesting beyond it is a listed known finding",
     ],
 }
@@ -192,6 +194,12 @@ def declared_dims(text, schema):
                                 for k in range(0, len(body), 3)):
             return None
         vals[key] = int(toks[p + 2])
+        if key == "NTAX":
+            # NTAX governs the matrix only when declared in the matrix's own block: a TAXA block's NTAX may belong
+            # to another set of taxa in files with several TAXA blocks, and the reader keeps one global value
+            begin = max(k for k in range(mpos) if toks[k] == "BEGIN")
+            if p < begin:
+                vals[key] = None
     return vals["NTAX"], vals["NCHAR"]
 
 
@@ -226,7 +234,7 @@ def matrix_problems(m, dims):
             break
     if dims is not None:
         ntax, nchar = dims
-        if len(rows) != ntax:
+        if ntax is not None and len(rows) != ntax:
             problems.append(("rows", "text declares %d taxa, matrix has %d rows" % (ntax, len(rows))))
         bad = [(label, len(cells)) for label, cells in rows if len(cells) != nchar]
         if bad:
@@ -416,7 +424,7 @@ def sub_valid(ctx, doc):
             if dims is not None:
                 ctx.cls("valid:nexus:dims_declared")
                 m0 = content["matrices"][0]
-                if dims != (m0["ntax"], m0["nchar"]):
+                if dims[1] != m0["nchar"] or dims[0] not in (None, m0["ntax"]):
                     raise runner.HarnessError("declared_dims %r disagrees with the generator %r on %r" % (
                         dims, (m0["ntax"], m0["nchar"]), text))
     for route in routes_for(schema):
